@@ -421,7 +421,7 @@ def clean_source(text, stats, *, features=(), log_free=True):
     for name, fn in (('R4', lambda t: r4_resolve_cfg(t, features)), ('R1', r1_strip_log_macros), ('R2', r2_format),
                      ('R3', r3_strip_attrs), ('R5', r5_vis), ('R6', r6_types), ('R10', r10_opt_closures),
                      ('R14', r14_std), ('R9', r9_let_chains), ('R8', r8_range_inclusive), ('R7', r7_cursor_loops),
-                     ('R7t', r7_tuple_loops), ('R13', r13_compound_assign), ('R21', r21_flatten_paths)):
+                     ('R12', r12_filter_count), ('R7t', r7_tuple_loops), ('R13', r13_compound_assign), ('R21', r21_flatten_paths)):
         text, k = fn(text)
         if k:
             stats[name] += k
@@ -584,9 +584,11 @@ def r12_filter_count(text):
     pat = re.compile(r'let (\w+) = (\w+(?:\.\w+)*)\s*\.iter\(\)\s*\.filter\(\|(\w+)\| (.*?)\)\s*\.count\(\);', re.S)
     def sub(m):
         x, e, c, cond = m.group(1), m.group(2), m.group(3), m.group(4).strip()
-        return ('let mut %s_n: usize = 0;\n        let mut %s_nx: usize = 0;\n        while %s_nx < %s.len() /*@LOOPSPEC*/\n        {\n'
-                '            let %s = &%s[%s_nx]; %s_nx += 1;\n            if %s { %s_n += 1; }\n        }\n        let %s = %s_n;'
-                % (x, c, c, e, c, e, c, c, cond, x, x, x))
+        dflt = '/*@LOOPSPEC:            invariant %s_nx <= %s.len(), %s_n <= %s_nx,\n            decreases %s.len() - %s_nx,*/' % (c, e, x, c, e, c)
+        head = 'let mut %s_n: usize = 0;\n        let mut %s_nx: usize = 0;\n        while %s_nx < %s.len() ' % (x, c, c, e)
+        tail = ('\n        {\n            let %s = &%s[%s_nx]; %s_nx += 1;\n            if %s { %s_n += 1; }\n        }\n        let %s = %s_n;'
+                % (c, e, c, c, cond, x, x, x))
+        return head + dflt + tail
     return pat.subn(sub, text)
 
 
@@ -693,3 +695,23 @@ def r19_copied_filters_collect(text):
         lines.append(f'        if !({c}) {{ continue; }}')
     lines += [f'        {x}.push({par}_val);', '    }']
     return text[:m.start()] + '\n'.join(lines) + text[me.end():], 1
+
+
+def r12_find_mut(text):
+    """`if let Some(X) = E.iter_mut().find(|r| COND) [&& COND2] { BODY }`  ->  a search cursor loop for the FIRST matching index, then
+        if let Some(X_ix) = X_pos { let X = &mut E[X_ix]; [if COND2] { BODY } }
+    (COND, COND2 and BODY kept verbatim; `find` returns the first match, so does the loop)."""
+    m = re.search(r'(?m)^(\s*)if let Some\((\w+)\) = ((?:self\s*\.\s*)?\w+(?:\.\w+)*)\s*\.iter_mut\(\)\s*\.find\(\|(\w+)\| (.*?)\)\s*(?:&&\s*(.*?))?\s*\{', text, re.S)
+    if not m:
+        return text, 0
+    ind, x, e, r, cond, cond2 = m.group(1), m.group(2), re.sub(r'\s+', '', m.group(3)), m.group(4), m.group(5).strip(), (m.group(6) or '').strip()
+    ob = m.end() - 1
+    cb = match_bracket(text, ob, '{', '}')
+    body = text[ob:cb + 1]
+    dflt = ('/*@LOOPSPEC:            invariant %s_nx <= %s.len(), %s_pos is Some ==> %s_pos.unwrap() < %s.len(),\n            decreases %s.len() - %s_nx,*/'
+            % (r, e, x, x, e, e, r))
+    head = (f'{ind}let mut {x}_pos: Option<usize> = None;\n{ind}let mut {r}_nx: usize = 0;\n{ind}while {r}_nx < {e}.len() {dflt}\n{ind}{{\n'
+            f'{ind}    let {r} = &{e}[{r}_nx];\n{ind}    if {cond} {{ {x}_pos = Some({r}_nx); break; }}\n{ind}    {r}_nx += 1;\n{ind}}}\n'
+            f'{ind}if let Some({x}_ix) = {x}_pos {{\n{ind}    let {x} = &mut {e}[{x}_ix];\n')
+    inner = (f'{ind}    if {cond2} ' if cond2 else f'{ind}    ') + body + f'\n{ind}}}'
+    return text[:m.start()] + head + inner + text[cb + 1:], 1
